@@ -838,6 +838,49 @@ def _schema_bits(sc):
     return _schema_bits(sc[1]) * sc[2]
 
 
+def _ref_unpack(sc, bits, pos, out, oor):
+    """Reference decoder for raw bits: appends the leaves to out, (value, modulus) of every bounded integer field
+    holding a value >= its modulus to oor; returns the next position."""
+    k = sc[0]
+    if k == "bool":
+        out.append(bits[pos])
+        return pos + 1
+    if k == "int":
+        w = (sc[1] - 1).bit_length()
+        v = sum(b << i for i, b in enumerate(bits[pos:pos + w]))
+        out.append(v)
+        if w and v >= sc[1]:
+            oor.append((v, sc[1]))
+        return pos + w
+    if k == "list":
+        for x in sc[1]:
+            pos = _ref_unpack(x, bits, pos, out, oor)
+        return pos
+    for _ in range(sc[2]):
+        pos = _ref_unpack(sc[1], bits, pos, out, oor)
+    return pos
+
+
+def _force_top(sc, bits, pos, rng):
+    k = sc[0]
+    if k == "bool":
+        return pos + 1
+    if k == "int":
+        w = (sc[1] - 1).bit_length()
+        if w and sc[1] != (1 << w) and rng.random() < 0.7:
+            v = rng.choice([sc[1], sc[1] - 1, (1 << w) - 1])
+            for i in range(w):
+                bits[pos + i] = (v >> i) & 1
+        return pos + w
+    if k == "list":
+        for x in sc[1]:
+            pos = _force_top(x, bits, pos, rng)
+        return pos
+    for _ in range(sc[2]):
+        pos = _force_top(sc[1], bits, pos, rng)
+    return pos
+
+
 class C16(ProverCheck):
     name = "C16"
     prop = "C16"
@@ -907,6 +950,20 @@ class C16(ProverCheck):
             plan = {"cfg": cfg, "inputs": [{"kind": "priv", "t": "I", "v": 0}], "body": [stmt]}
             return {"mode": "width", "n": n, "plan": plan, "vectors": [[v] for v in vec],
                     "seed": rng.randrange(1 << 30)}
+        if rng.random() < 0.2:
+            # unpack bits that did not come from pack(): raw secret integers holding 0/1 (plan inputs); a bounded
+            # integer field holding a value >= its modulus must be refused, and unprovable without the check
+            sc = self.gen_schema(rng, rng.choice([0, 1, 2]), [16])
+            nb = _schema_bits(sc)
+            if nb >= 1:
+                bits = [rng.randrange(2) for _ in range(nb)]
+                if rng.random() < 0.4:
+                    # push every non-power-of-two field to its top value(s)
+                    _force_top(sc, bits, 0, rng)
+                cfg["bitlength"] = max(cfg["bitlength"], 8)
+                plan = {"cfg": cfg, "inputs": [{"kind": "priv", "t": "I", "v": b} for b in bits],
+                        "body": [{"s": "unpack_raw", "schema": sc, "nbits": nb}]}
+                return {"mode": "unpack_raw", "plan": plan, "seed": rng.randrange(1 << 30)}
         inputs, expect, oor = [], [], []
         want_oor = [] if rng.random() < 0.8 else [None]
         sc = self.gen_schema(rng, rng.choice([0, 1, 2, 3]), [24])
@@ -921,7 +978,67 @@ class C16(ProverCheck):
     def run(self, case):
         if case["mode"] == "width":
             return self.run_width(case)
+        if case["mode"] == "unpack_raw":
+            return self.run_unpack_raw(case)
         return self.run_pack(case)
+
+    def run_unpack_raw(self, case):
+        plan = case["plan"]
+        rng = _random.Random(case["seed"])
+        bl = plan["cfg"]["bitlength"]
+        sc = plan["body"][0]["schema"]
+        bits = [i["v"] for i in plan["inputs"]]
+        expect, oor = [], []
+        _ref_unpack(sc, bits, 0, expect, oor)
+        viol, probes, faults = [], {}, {}
+
+        def add(oracle, mode, detail):
+            s = {"op": "unpack_raw", "mode": mode}
+            if not any(v["oracle"] == oracle and v["site"] == s for v in viol):
+                viol.append({"property": "C16", "oracle": oracle, "site": s, "detail": detail})
+        tr = PV.run_plan(plan)
+        ok = tr.outcome == "completed" and not tr.caught
+        if not oor:
+            probes["raw_bits_in_range"] = 1
+            if not ok:
+                add("in_range_rejected", "honest", "unpack of in-range raw bits %r: %s %s" % (bits, tr.outcome, tr.outcome_msg))
+            else:
+                out = tr.pack_out.get(1)
+                if out != expect:
+                    add("roundtrip_differs", "honest", "bits %r decode to %r, unpack returned %r" % (bits, expect, out))
+                t = PV.Trace(tr)
+                if t.unsat(t.base_assignment()):
+                    add("accepted_but_unsatisfied", "honest", "unpack trace not satisfied")
+                elif t.hints:
+                    atk = PV.Attack(t, PV.plan_consts(plan))
+                    for lies, vd, a, rep in atk.search(rng, bl, self.wire_budget):
+                        add("second_assignment", "wire", "lies %r move unpacked leaf %s" % (lies, vd[1]["name"]))
+                        break
+                    faults["lie-wire"] = atk.evals
+        else:
+            probes["raw_bits_field_ge_modulus"] = 1
+            if ok:
+                add("out_of_range_accepted", "honest", "bits %r hold %r for a field with modulus %r" % (bits, oor[0][0], oor[0][1]))
+            else:
+                d = PV.run_plan(plan, nocheck=True)
+                if d.outcome != "completed" or d.caught:
+                    probes["nocheck_run_raised"] = 1
+                else:
+                    t = PV.Trace(d)
+                    atk = PV.Attack(t, PV.plan_consts(plan))
+                    faults["nocheck"] = 1
+                    if not t.unsat(atk.base):
+                        add("width_not_enforced", "honest-hints", "field value %r >= modulus %r: the hints computed with "
+                            "checks off satisfy all %d constraints" % (oor[0][0], oor[0][1], len(t.cons)))
+                    else:
+                        found = PV.search_sat(atk, rng, bl)
+                        faults["lie-wire"] = atk.evals + atk.repairs
+                        if found is not None:
+                            add("width_not_enforced", "wire", "field value %r >= modulus %r: lies %r satisfy the circuit" % (
+                                oor[0][0], oor[0][1], found[0]))
+        return {"violations": viol, "digest": E.sha((tr.digest_material(), [x["detail"] for x in viol])),
+                "nontrivial": E.sha((sc, bits)), "events": tr.steps + faults.get("lie-wire", 0), "faults": faults,
+                "probes": probes, "sigs": [E.sha((sc, bool(oor)))], "outcome": tr.outcome}
 
     def run_width(self, case):
         plan = case["plan"]
@@ -2318,8 +2435,12 @@ class BlockGen:
             return self.leaf()
         if u < 0.8:
             return {"op": r.choice(["+", "-"]), "a": self.leaf(), "b": self.leaf()}
-        if u < 0.9:
+        if u < 0.88:
             return {"op": "*", "a": self.leaf(), "b": {"k": r.choice([0, 1, 2, -1])}}
+        if u < 0.92:
+            # operations that compute their result from hint wires (quotient, remainder, bits): under a false
+            # block guard those hints are dummies and the merged result must still be the native one
+            return {"op": r.choice(["//", "%", ">>"]), "a": self.leaf(), "b": {"k": r.choice([1, 2, 3])}}
         return {"call": r.choice(["ite", "ite_lazy"]), "cond": self.cond(), "t_": self.leaf(), "f_": self.leaf()}
 
     def secret(self, e):
@@ -2351,6 +2472,16 @@ class BlockGen:
                 s = {"s": "block_if", "cond": self.cond(), "then": self.body()}
                 s["elifs"] = [[self.cond(), self.body(2)] for _ in range(r.choice([0, 0, 1, 2]))]
                 s["else"] = self.body(2) if r.random() < 0.6 else None
+                if self.depth == 1 and r.random() < 0.2:
+                    # a variable that first comes into being inside the block: assigned in every branch
+                    self.lvn += 1
+                    fresh = "y%d" % self.lvn
+                    if s["else"] is None:
+                        s["else"] = []
+                    for b in [s["then"]] + [b for _, b in s["elifs"]] + [s["else"]]:
+                        b.insert(r.randrange(0, len(b) + 1), {"s": "track", "name": fresh, "e": self.expr()})
+                    s["fresh"] = fresh
+                    self.names.append(fresh)
                 return s
             if u < 0.88:
                 s = {"s": "block_while", "cond": self.cond(), "max": r.randrange(1, 5), "body": self.body()}
@@ -2364,14 +2495,21 @@ class BlockGen:
             self.loopvars.append(lv)
             s = {"s": "block_for", "stop": stop, "max": r.randrange(1, 5), "lv": lv,
                  "checkstopmax": r.random() < 0.4, "body": self.body()}
+            if r.random() < 0.2:
+                # the two-argument form: public start, secret stop >= start, cap above the start
+                s["start"] = r.choice([0, 1, 2, 3])
+                s["stop"] = {"op": "+", "a": stop, "b": {"k": s["start"]}}
+                s["max"] += s["start"]
             if r.random() < 0.2 and self.depth < self.cfg.get("max_nesting", 2):
                 # one _range object stored in a variable and used by this loop and by a loop nested in it
                 self.lvn += 1
                 rv = "_rg%d" % self.lvn
                 inner_lv = "_i%d" % self.lvn
                 self.loopvars.append(inner_lv)
-                inner = {"s": "block_for", "stop": stop, "max": s["max"], "lv": inner_lv, "checkstopmax": s["checkstopmax"],
+                inner = {"s": "block_for", "stop": s["stop"], "max": s["max"], "lv": inner_lv, "checkstopmax": s["checkstopmax"],
                          "range_var": rv, "body": self.body(2)}
+                if "start" in s:
+                    inner["start"] = s["start"]
                 self.loopvars.pop()
                 s["range_var"] = rv
                 s["range_def"] = True
@@ -2527,7 +2665,7 @@ def valid_block_plan(plan):
                 names(v, lvs, out)
         return out
 
-    def check(body, lvs, top):
+    def check(body, lvs, top, fresh=None):
         for s in body:
             k = s["s"]
             used = []
@@ -2546,12 +2684,19 @@ def valid_block_plan(plan):
                     return False
                 inited.add(s["name"])
             elif k == "track":
-                if s["name"] not in inited:
+                if s["name"] not in inited and s["name"] != fresh:
                     return False
             elif k == "block_if":
+                fr = s.get("fresh")
+                if fr is not None and (not top or s.get("else") is None):
+                    return False
                 for b in [s["then"]] + [b for _, b in s.get("elifs", [])] + ([s["else"]] if s.get("else") is not None else []):
-                    if not check(b, lvs, False):
+                    if fr is not None and not any(x["s"] == "track" and x["name"] == fr for x in b):
                         return False
+                    if not check(b, lvs, False, fr):
+                        return False
+                if fr is not None:
+                    inited.add(fr)
             elif k == "block_while":
                 if not check(s["body"], lvs, False):
                     return False
